@@ -146,7 +146,9 @@ CHECKS = {
                  "filter_by_path_includes_or_excludes (sandwich taken from the statement: excluded line rejected, non-included line rejected, "
                  "permitted lines accepted), node_is_selected (= result filter AND line filter) and the change-reporting helpers "
                  "(report_change/add_change/...: the change entry's lineNumber is the node's start line) are verified against contracts; "
-                 "all obligations discharged by z3 on each run."),
+                 "all obligations discharged by z3 on each run. Plus a selection-typestate obligation per change-recording site of EVERY transformer "
+                 "class (147 sites): on every path to the site the line filter returned True - discharged by a path-sensitive abstract interpretation "
+                 "of the real method bodies (pyvc/guardscan.py; two allow-listed sites are listed as assumptions)."),
         "note": ("Trusted: libcst PositionProvider (node_position uninterpreted, 1 <= start.line <= end.line), fnmatch.fnmatch (pure predicate), "
                  "str.split/int() as uninterpreted functions with the listed axioms; the per-codemod callback on_result_found (assumed to touch only "
                  "its file context lists). Whether each individual transformer consults the filter is the guard-obligation scan (when listed in evidence)."),
@@ -156,7 +158,9 @@ CHECKS = {
         "text": ("Deductive, unbounded: the location-matching kernel (Result.match_location sandwich, same_line, fuzzy_column_match), "
                  "the result filter of every libcst transformer (results_for_node, filter_by_result, node_is_selected) and the findings "
                  "attached to change entries (FileContext.get_findings_for_location / get_all_findings) are verified function by function "
-                 "against contracts taken from the property statement; every obligation is discharged by z3 on each run."),
+                 "against contracts taken from the property statement; every obligation is discharged by z3 on each run. Plus the selection-typestate "
+                 "obligation per change-recording site of every transformer class (result filter required for the transformers of external-tool "
+                 "codemods; pyvc/guardscan.py). BOUNDED stand-in: Sonar/DefectDojo JSON readers."),
         "note": ("Trusted: libcst PositionProvider (node_position is an uninterpreted pure function with 1 <= start.line <= end.line); the "
                  "dynamic-dispatch contract of match_location is assumed at call sites and carried as a refinement obligation by each override; "
                  "schematic list rules MAP/FILTERMAP of the generator; z3/cvc5. Per-transformer behaviour beyond the shared filter is out of reach."),
